@@ -281,6 +281,11 @@ class CHECK(core.Check):
         return out
 
     def impl(self, case):
+        # the transports' logging statements are code on the data path: every case runs at a verbosity of its own
+        with D.console_at(D.verbosity_of(core.case_key(case))):
+            return self._impl_at_level(case)
+
+    def _impl_at_level(self, case):
         rig = Rig(bool(case["tls"]), case["front"], case["T"])
         lines = ["ok"]
         for op in case["ops"]:
